@@ -20,6 +20,7 @@ def rule_pipeline_order(ctx):
                  "call that can change chunk structure after indent_text() is followed by the `old_changes != cpd.changes` exit test that "
                  "re-runs indent_text(); nothing that changes structure runs between that loop and output_text()")
     u = db.fn("uncrustify_file", file=UNC)
+    r.names(u, "old_changes")
     s = db.fn("uncrustify_start", file=UNC)
     bc = db.calls_in(s, "brace_cleanup")
     r.check(len(bc) == 1, "uncrustify_start/brace_cleanup", db.loc(s, s.l0), "uncrustify_start does not call brace_cleanup exactly once")
